@@ -26,7 +26,7 @@ fn gen_far(rng: &mut Rng, extent: i32) -> i32 {
 
 pub fn gen_transfer(rng: &mut Rng, from: usize, sw: i32, sh: i32, dw: i32, dh: i32, far: bool) -> Op {
     let g = |rng: &mut Rng, e: i32| if far { gen_far(rng, e) } else { rng.range(-2, e + 2) };
-    let rect = match rng.below(8) {
+    let rect = match if far { rng.below(8) } else { 3 + rng.below(12) } {
         0 => [0, 0, sw, sh],
         1 => {
             // inverted
@@ -40,15 +40,21 @@ pub fn gen_transfer(rng: &mut Rng, from: usize, sw: i32, sh: i32, dw: i32, dh: i
             let y = g(rng, sh);
             [x, y, x, y + rng.range(0, 3)]
         }
-        _ => {
+        3..=7 => {
             let x = g(rng, sw);
             let y = g(rng, sh);
             let x2 = if rng.chance(1, 5) { g(rng, sw) } else { x.saturating_add(rng.range(0, sw + 3)) };
             let y2 = if rng.chance(1, 5) { g(rng, sh) } else { y.saturating_add(rng.range(0, sh + 3)) };
             [x, y, x2, y2]
         }
+        _ => {
+            // a block that overlaps the source, with a non-zero origin most of the time
+            let x = rng.range(-1, (sw - 1).max(0));
+            let y = rng.range(-1, (sh - 1).max(0));
+            [x, y, rng.range(x + 1, sw + 1).max(x + 1), rng.range(y + 1, sh + 1).max(y + 1)]
+        }
     };
-    let dst = [g(rng, dw), g(rng, dh)];
+    let dst = if far || rng.chance(1, 3) { [g(rng, dw), g(rng, dh)] } else { [rng.range(-2, (dw - 1).max(0)), rng.range(-2, (dh - 1).max(0))] };
     match rng.below(3) {
         0 => Op::CopySurface { from, rect, dst },
         1 => Op::BlendSurface { from, rect, dst, blend: gen_blend(rng, BlendProfile::Uniform) },
@@ -58,7 +64,8 @@ pub fn gen_transfer(rng: &mut Rng, from: usize, sw: i32, sh: i32, dw: i32, dh: i
 
 pub fn gen_c15(rng: &mut Rng, _thorough: bool) -> History {
     let ns = 2 + rng.usize(2);
-    let surfaces: Vec<SurfSpec> = (0..ns).map(|_| gen_surface(rng, 16, true, false)).collect();
+    let zero_ok = rng.chance(1, 3);
+    let surfaces: Vec<SurfSpec> = (0..ns).map(|_| gen_surface(rng, 16, zero_ok, false)).collect();
     let mut em = Emit::new(surfaces);
     let n = 2 + rng.usize(9);
     let draw = DrawCfg::general();
@@ -93,7 +100,8 @@ pub fn gen_c15(rng: &mut Rng, _thorough: bool) -> History {
                     from = (from + 1) % ns;
                 }
                 let (sw, sh) = em.dims(from);
-                let op = gen_transfer(rng, from, sw, sh, w, h, true);
+                let far = rng.chance(1, 3);
+                let op = gen_transfer(rng, from, sw, sh, w, h, far);
                 em.push(si, op);
             }
         }
@@ -284,7 +292,8 @@ pub fn gen_c19(rng: &mut Rng, thorough: bool) -> History {
             4 => Op::ReadViews,
             5 | 6 => Op::Restart(rng.below(4) as u8),
             7 => {
-                let p = valid_pixel(rng);
+                // the packing claim is for all component values, premultiplied or not
+                let p = if rng.chance(1, 2) { valid_pixel(rng) } else { rng.next_u32() };
                 Op::Clear { argb: [(p >> 24) as u8, (p >> 16) as u8, (p >> 8) as u8, p as u8] }
             }
             8 => {
